@@ -26,5 +26,15 @@ Example C14_example :
   s_failed (clone_cmd_model env) = true /\ s_out (clone_cmd_model env) = Reg [1;2;3].
 Proof. vm_compute. split; reflexivity. Qed.
 
+(* the --verify-header refusal of the command (regenerated condition): any supplied value that is shorter, longer or
+   different from the archive's header checksum is refused, and the refusal precedes every file operation *)
+Theorem C14_pin_mismatch_refused : forall o,
+  (pin_len_differs o = true \/ pin_prefix_differs o = true) -> pin_refuses o = true.
+Proof. intros [[|] [|]]; cbn; intros [Hd|Hd]; try discriminate Hd; reflexivity. Qed.
+Theorem C14_pin_checked_before_output : pin_checked_before_output = true.
+Proof. reflexivity. Qed.
+
 Print Assumptions C14_refusal_leaves_output_clone.
 Print Assumptions C14_refusal_leaves_output_compress.
+Print Assumptions C14_pin_mismatch_refused.
+Print Assumptions C14_pin_checked_before_output.
